@@ -7,7 +7,8 @@ File, store-backed and SQL caches and the conditional wrappers are covered by th
 from pyvc.dsl import *
 
 Data = Opaque("Data")
-SMeta = Rec("StateMeta", dict(status=Str, query=Str, is_error=Bool))
+SMeta = Rec("StateMeta", dict(status=Str, query=Str, is_error=Bool, caching=Bool, created=Str, filename=Opt(Str), extension=Str,
+                              vars=Opaque("Vars"), log=Seq(Opaque("Any")), volatile=Bool))
 
 classdef("liquer.state.State", fields=dict(data=Data, metadata=SMeta, metadata_only=Bool))
 classdef("Cache", abstract=True, fields=dict(cmeta=Map(Str, SMeta), cdata=Map(Str, Data)))
@@ -29,6 +30,24 @@ def is_ready(m):
 @spec(params=dict(m=SMeta), returns=SMeta, macro=True)
 def made_ready(m):
     return rec_set(m, "status", "ready")
+
+
+@spec(params=dict(m=SMeta), returns=Bool, macro=True)
+def volatile_of(m):
+    """the volatile flag kept in metadata['attributes'] (modelled as a ghost field `volatile` of the metadata record)"""
+    return rec_has(m, "volatile") and rec_get(m, "volatile")
+
+
+@spec(params=dict(m=SMeta), returns=Bool, macro=True)
+def admissible(m):
+    """C05: finished, successful, non-volatile, caching not switched off"""
+    return rec_has(m, "is_error") and not rec_get(m, "is_error") and not volatile_of(m) \
+        and (not rec_has(m, "caching") or rec_get(m, "caching"))
+
+
+@assumed("liquer.state.State.is_volatile", params=dict(self=Ref("State")), returns=Bool, pure=True)
+def _(self):
+    ensures(result == volatile_of(self.metadata))
 
 
 # ------------------------------------------------------------------ State helpers (assumed: liquer.state is outside this property's FUC list)
@@ -141,8 +160,14 @@ def _(self, key):
     ensures(self.cmeta == mapdel(old(self.cmeta), key) and self.cdata == mapdel(old(self.cdata), key))
 
 
+@interface("Cache.store_metadata", params=dict(self=Ref("Cache"), metadata=SMeta), returns=Opt(Bool))
+def _(self, metadata):
+    modifies(self.cmeta)
+
+
 @interface("Cache.store", params=dict(self=Ref("Cache"), state=ST), returns=Opt(Bool))
 def _(self, state):
+    requires(admissible(state.metadata), "admissible")
     requires(rec_has(state.metadata, "is_error") and rec_has(state.metadata, "query"))
     q = rec_get(state.metadata, "query")
     modifies(self.cmeta, self.cdata, state.metadata)
@@ -152,8 +177,7 @@ def _(self, state):
             (not retrievable(self, old(q)) and mapdel(self.cdata, old(q)) == mapdel(old(self.cdata), old(q))
              and mapdel(self.cmeta, old(q)) == mapdel(old(self.cmeta), old(q))))
     ensures(implies(old(rec_get(state.metadata, "is_error")), not accepted(result)))
-    ensures(rec_has(state.metadata, "query") and rec_get(state.metadata, "query") == old(q) and rec_has(state.metadata, "is_error")
-            and rec_get(state.metadata, "is_error") == old(rec_get(state.metadata, "is_error")))
+    ensures(state.metadata == old(state.metadata) or state.metadata == made_ready(old(state.metadata)), "the-state-is-at-most-marked-ready")
 
 
 # ------------------------------------------------------------------ CacheCombine ('+')
@@ -192,6 +216,7 @@ def _(self, key):
 @contract("liquer.cache.CacheCombine.store", params=dict(self=CC, state=ST), returns=Opt(Bool))
 def _(self, state):
     requires(cc_inv(self))
+    requires(admissible(state.metadata), "admissible:the-caller-hands-over-only-finished-successful-non-volatile-results")
     requires(rec_has(state.metadata, "is_error") and rec_has(state.metadata, "query"))
     q = rec_get(state.metadata, "query")
     modifies(self.cache1.cmeta, self.cache1.cdata, self.cache2.cmeta, self.cache2.cdata, state.metadata)
